@@ -42,7 +42,7 @@ func init() {
 		}
 		gen.CheckVarNameOwners(c.Run, c.Prog)
 		// AddVar tests names against the imports through searchImport: it must see the current qualifiers
-		gen.CheckSearchLive(c.Run, c.Prog)
+		searchLiveTable(c)
 		c.Run.Floor("G-RESERVED/covers", 40)
 		c.RunSkeletons(SkelOpts{Rules: []string{"G-SCOPE", "K-RECORD/literal"}, Env: smallEnv})
 	})
